@@ -199,6 +199,16 @@ func c08Exec(scAny any, c *simcheck.Ctx) *simcheck.Violation {
 		return simcheck.V("fingerprint-unstable", "a second load of identical project text re-executed %s (dawn's reason: %q)", st[0], reason)
 	}
 	c.St.Count("stable_reloads", 1)
+	// (c'') ... and so does another OS process (the Go runtime seeds its hashes per process)
+	if c.Tapes.Get("child").Intn(4) == 0 {
+		step++
+		if cr, ok := h.buildInChild(step, &opSpec{Op: "build", Label: "//:all"}); ok && cr.Failure == "" && cr.LoadErr == "" && cr.RunErr == "" {
+			if len(cr.Started) > 0 {
+				return simcheck.V("fingerprint-unstable", "another OS process loading identical project text re-executed %s (dawn's reason: %q)", cr.Started[0], cr.Reasons[cr.Started[0]])
+			}
+			c.St.Count("stable_in_another_os_process", 1)
+		}
+	}
 	// (c') identical project text in another directory (a moved checkout, state included)
 	if c.Tapes.Get("moved").Intn(3) == 0 {
 		orig := h.w.root
